@@ -312,6 +312,12 @@ def case_overlap(ctx, inp):
         impl = [Sym("raised")]
         if not (unlimited and MSG_ALLNAN in str(e)):
             ctx.fail(f"{fn[0]} raised ValueError", observed=str(e)[:300], expected=exp_cells)
+        else:
+            # documented limitation: only when a checked partition has nothing to fill from
+            checked = parts[1:] if fn[0] == "ffill" else parts[:-1]
+            if not any(all(c is None for c in p) for p in checked):
+                ctx.fail(f"{fn[0]}() raised 'All NaN partition' although no checked partition is all-NaN",
+                         observed=str(e)[:200], expected=exp_cells)
     except Exception as e:
         ctx.fail(f"{fn[0]} raised {type(e).__name__}", observed=f"{type(e).__name__}: {e}"[:300], expected=exp_cells)
         return
